@@ -813,10 +813,14 @@ def Commandable(
                 )
             super(_Commando, self).__init__(**kwargs)
 
-            # build a default value in case one is needed
-            default_value = datatype().value
-            if issubclass(datatype, Enumerated):
-                default_value = datatype._xlate_table[default_value]
+            # build a default value in case one is needed, constructed
+            # datatypes (DateTime) are their own value
+            if issubclass(datatype, Atomic):
+                default_value = datatype().value
+                if issubclass(datatype, Enumerated):
+                    default_value = datatype._xlate_table[default_value]
+            else:
+                default_value = datatype()
             if _debug:
                 Commandable._debug("    - default_value: %r", default_value)
 
